@@ -14,83 +14,3 @@ pub open spec fn mi256_correct(s: Seq<u8>, o: int, key: Seq<u8>) -> bool {
     mi256_len_ok(n) && s.subrange(o + 4, o + 4 + n) == spec_hmac_sha256(key, hmac_input(s, o, n)).subrange(0, n)
 }
 
-// ---- TLV walk positions
-pub open spec fn is_tlv(s: Seq<u8>, x: int) -> bool { 0 <= x && x + 4 <= s.len() && a_next(s, x) <= s.len() }
-pub open spec fn reach(s: Seq<u8>, from: int, x: int) -> bool
-    decreases s.len() - from
-{
-    is_tlv(s, from) && (x == from || (from < x && reach(s, a_next(s, from), x)))
-}
-// first exposed TLV of type t, searching the exposed stream from (o, st)
-pub open spec fn first_exposed(s: Seq<u8>, o: int, st: int, t: u16) -> Option<int>
-    decreases s.len() - o
-{
-    if !is_tlv(s, o) { None }
-    else {
-        let ty = a_type(s, o);
-        let shown = st == 0 || (st == 1 && ty == MI256) || ty == FP;
-        let st2 = if st == 0 { if ty == MI { 1int } else if ty == MI256 { 2int } else { 0int } } else { 2int };
-        if shown && ty == t { Some(o) } else { first_exposed(s, a_next(s, o), st2, t) }
-    }
-}
-pub proof fn lemma_next_gt(s: Seq<u8>, o: int)
-    ensures a_next(s, o) >= o + 4
-{
-    assert(padded(a_len(s, o)) >= 0);
-}
-// an exposed attribute is a walk position of that type
-pub proof fn lemma_first_exposed_reach(s: Seq<u8>, o: int, st: int, t: u16)
-    requires first_exposed(s, o, st, t) is Some
-    ensures reach(s, o, first_exposed(s, o, st, t)->Some_0), a_type(s, first_exposed(s, o, st, t)->Some_0) == t, first_exposed(s, o, st, t)->Some_0 >= o
-    decreases s.len() - o
-{
-    let ty = a_type(s, o);
-    let shown = st == 0 || (st == 1 && ty == MI256) || ty == FP;
-    let st2 = if st == 0 { if ty == MI { 1int } else if ty == MI256 { 2int } else { 0int } } else { 2int };
-    lemma_next_gt(s, o);
-    if !(shown && ty == t) {
-        lemma_first_exposed_reach(s, a_next(s, o), st2, t);
-    }
-}
-// in a well-formed tail, once MI (resp. MI-SHA256) has been seen no later walk position has that type
-pub proof fn lemma_no_repeat(s: Seq<u8>, o: int, mi: bool, mi256: bool, fp: bool, x: int)
-    requires tail_ok(s, o, mi, mi256, fp), reach(s, o, x), o >= 0
-    ensures mi ==> a_type(s, x) != MI, mi256 ==> a_type(s, x) != MI256
-    decreases s.len() - o
-{
-    let t = a_type(s, o);
-    lemma_next_gt(s, o);
-    if x != o {
-        lemma_no_repeat(s, a_next(s, o), mi || t == MI, mi256 || t == MI256, fp || t == FP, x);
-    }
-}
-// two walk positions of type MI (or MI-SHA256) in a well-formed tail coincide
-pub proof fn lemma_unique(s: Seq<u8>, o: int, mi: bool, mi256: bool, fp: bool, x: int, y: int, t: u16)
-    requires tail_ok(s, o, mi, mi256, fp), reach(s, o, x), reach(s, o, y), o >= 0, a_type(s, x) == t, a_type(s, y) == t, t == MI || t == MI256
-    ensures x == y
-    decreases s.len() - o
-{
-    let ty = a_type(s, o);
-    lemma_next_gt(s, o);
-    let (m2, s2, f2) = (mi || ty == MI, mi256 || ty == MI256, fp || ty == FP);
-    if x == o && y != o { lemma_no_repeat(s, a_next(s, o), m2, s2, f2, y); }
-    else if y == o && x != o { lemma_no_repeat(s, a_next(s, o), m2, s2, f2, x); }
-    else if x != o && y != o { lemma_unique(s, a_next(s, o), m2, s2, f2, x, y, t); }
-}
-// walk positions are ordered: nothing lies strictly between a position and its successor
-pub proof fn lemma_reach_step(s: Seq<u8>, from: int, p: int, x: int)
-    requires reach(s, from, p), reach(s, from, x), p < x
-    ensures reach(s, a_next(s, p), x)
-    decreases s.len() - from
-{
-    lemma_next_gt(s, from);
-    if p != from { lemma_reach_step(s, a_next(s, from), p, x); }
-}
-pub proof fn lemma_reach_tlv(s: Seq<u8>, from: int, x: int)
-    requires reach(s, from, x)
-    ensures is_tlv(s, x), x >= from
-    decreases s.len() - from
-{
-    lemma_next_gt(s, from);
-    if x != from { lemma_reach_tlv(s, a_next(s, from), x); }
-}
